@@ -28,7 +28,9 @@ CHECKS = {
         text="TLC checks OutcomeIsReportOrError / NoNodesConforms and liveness EveryCallReturns (weak fairness) on the ACV "
              "model; seeded structured mutations of all fixtures plus raw bytes are run through every public entry point under "
              "recover() and a watchdog, and each recorded outcome must be a behaviour of the model - panic and timeout are not outcomes of any spec "
-             "action; a sample of inputs is also run as the first call of a fresh process. The byte space is explored, not enumerated.",
+             "action; a sample of inputs is also run as the first call of a fresh process; profiles that use YAML as a graph language "
+             "(anchors, aliases to an enclosing node, merge keys, tags, several documents) are among the inputs, and a crash of the "
+             "process inside the validator (stack overflow) counts as a panic. The byte space is explored, not enumerated.",
         ref="DESIGN.md §6 C17", technique="TLA+ model checking (TLC) + trace validation of fuzzed real executions"),
     "C09": dict(
         text="TLC checks HistoryIndependent and HandlesOnlyGrowByCompile on the ACV model (and refutes them when Eval results "
@@ -44,7 +46,10 @@ CHECKS = {
              "(4 procs x 3 calls) and one dense schedule (8 goroutines x 5 calls, alternating report configurations) are executed by a "
              "-race build with 4/16 goroutines: race-detector reports, per-call report "
              "hashes vs solo values, probes of handles compiled under concurrency and the counter values seen by hook H3 are "
-             "validated against the spec's atomic Genvar action.",
+             "validated against the spec's atomic Genvar action. The model also states that no call ever waits for another one "
+             "(StepsNeverWaitForOthers: every pending call has an enabled step in every reachable state); it is bound by parking "
+             "call A at each of its 14 event dispatches (listener stopped) and running call B to completion, documents below "
+             "and above 1 MiB: B and A return their solo values.",
         ref="DESIGN.md §6 C10", technique="TLA+ model checking (TLC) + schedule replay under the Go race detector + trace validation",
         note=TLC_NOTE + " Data-race freedom itself is observed by the Go race detector on the executions the spec's schedules "
              "induce; TLA+ contributes the shared-state discipline, the schedules and the linearisability check of the counter."),
@@ -74,7 +79,8 @@ CHECKS = {
              "proves Den = union of clauses and emits Den per focus node; random deeper paths x random graphs are judged by the "
              "same TLA+ operator - in a third of them one predicate is a custom domain property (apiExt.r in the path, its edges "
              "rendered the way AMF encodes extensions); each case is rendered with random spacing/parentheses and observed on the real validator "
-             "through `in` traces (values), the maxCount trace (distinct count) and nested sub-results (nodes).",
+             "through `in` traces (values), the maxCount trace (distinct count) and nested sub-results (nodes); a tenth of the batches "
+             "is observed a second time from inside a validation that carries 36 more nested constraints over other paths.",
         ref="DESIGN.md §6 C02", technique="TLA+ denotational spec + exhaustive path enumeration (TLC) replayed into the validator"),
     "C07": dict(
         text="spec/Names.tla models the identifiers the translator invents (letter table, plurals, reserved words of the policy "
@@ -116,7 +122,7 @@ CHECKS = {
         text="spec/Graph.tla defines Location(n) from lexical entries and source-file information; TLC enumerates scenarios "
              "(entry mode per node: node-level / property-level only / none; file listing each node; range tuples with "
              "magnitudes 0..123456; no source maps at all) and emits the location every node must get; each is rendered as "
-             "AMF-shaped source maps and validated with a profile producing results, traces and nested sub-results about all "
+             "AMF-shaped source maps (flat node ids and hierarchical ones, where a child's id extends its parent's) and validated with a profile producing results, traces and nested sub-results about all "
              "nodes; uri and the four numbers are compared, and the report is compared with that of the stripped graph.",
         ref="DESIGN.md §6 C14", technique="TLA+ lexical-index model + TLC-enumerated scenarios replayed into the validator"),
     "C05": dict(
